@@ -184,6 +184,10 @@ def csvImportOk (text : String) (impl : Sexp) : Bool × String :=
 def handle (prop op : String) (args : List Sexp) (impl : Sexp) : Reply :=
   let structural (m : Sexp) (holds : Bool) (clause : String := "spec") : Reply :=
     ⟨m == impl, m, holds, clause⟩
+  -- the same operation over another literal type must correspond to the `String` instance
+  if op.startsWith "typed." then
+    ⟨impl == atom "same", atom "same", impl == atom "same", "independent-of-the-literal-type"⟩
+  else
   -- law instances (sizes beyond the executable model): the verdict is the law itself
   if op.startsWith "law." then
     let r := lawJudge op args impl
@@ -467,6 +471,14 @@ def handle (prop op : String) (args : List Sexp) (impl : Sexp) : Reply :=
       ⟨text == decStr impl, encStr text, got == grid, "cells"⟩
     else
       ⟨got == grid, encList (grid.map fun r => encList (r.map encStr)), got == grid, "cells"⟩
+  | "render.typed", [_, st, _, _] =>
+    -- a table over numbers: `impl` = (text, the grid computed from inputs() and relation())
+    (match impl with
+     | list [atom "L", text, list rows] =>
+       let grid := rows.map fun r => match r with | list cs => cs.map decStr | _ => []
+       let got := readCells (styleOf st) (decStr text)
+       ⟨got == grid, text, got == grid, "cells"⟩
+     | _ => ⟨false, atom "bad-answer", false, "cells"⟩)
   | "display", [t, rendered] =>
     -- impl = to_string(); `rendered` = to_string_formatted(Empty, Word, Word) from the implementation
     let x := decTable t
